@@ -1420,6 +1420,20 @@ func (c *Ctx) RecursiveStateScoped(ob *core.Obligation, rel, stateType string) {
 			}
 		}
 	}
+	for _, pr := range c.snapshotPairs(rel, stateType) {
+		ok := true
+		for f := range pr.Stores {
+			if !snapshotTakenOnEntry(pr.Enter, f, pr.From[f]) {
+				ok = false
+			}
+		}
+		if !ok {
+			continue
+		}
+		for f := range pr.Stores {
+			restored[f] = true
+		}
+	}
 	n := 0
 	for _, f := range fns {
 		if !region[f] || helper[f] {
